@@ -108,6 +108,8 @@ const exportShim = `//go:build verif
 
 package toxiproxy
 
+import "net"
+
 // VerifCounts reports the sizes of a proxy's connection registry and of its toxic
 // collection's link table (read-only accessor for the verification harness; this file
 // exists only in the build overlay).
@@ -119,5 +121,16 @@ func VerifCounts(p *Proxy) (conns int, links int) {
 	links = len(p.Toxics.links)
 	p.Toxics.Unlock()
 	return
+}
+
+// VerifEachConn calls f for every socket in the proxy's connection registry (the harness
+// uses it to shrink kernel buffers so that a non-reading peer blocks the proxy's writes after
+// a few kilobytes; it changes no toxiproxy state).
+func VerifEachConn(p *Proxy, f func(name string, c net.Conn)) {
+	p.connections.Lock()
+	defer p.connections.Unlock()
+	for n, c := range p.connections.list {
+		f(n, c)
+	}
 }
 `
